@@ -9,7 +9,9 @@ PROP = {
             "(relative paths, types, bytes, mtimes) before, after every message and after the deletion are turned into an effect "
             "list and compared with the model's effect log, per-message accept/reject and chosen name, createdFiles, deleted list "
             "and both trees; filepath.Join itself is compared with the model's join; non-trivial = a message was refused, renamed, "
-            "something was deleted or a full series was present; distinct = distinct input line. Chain strata: one name (with fmt "
+            "something was deleted or a full series was present; distinct = distinct input line. Series strata (names, recvfiles, names-e2e): name, name.0 .. name.999 all present "
+            "(or all but one) and the messages ask for exactly that name - exhaustion must fail and touch nothing, a gap must be "
+            "used; fresh-shape also requires the chosen name to have been free. Chain strata: one name (with fmt "
             "verbs) arrives 52-65 times or meets an existing chain name.0..name.100; oracle fresh-shape (local name = name or "
             "name.N, N the first free decimal counter). Group recvfiles: a scripted "
             "protocol-1 sender stream (NUM, per entry NAME [SIZE DATA.. MD5]) through the REAL recvFiles in the same deep sandboxes: "
@@ -41,7 +43,7 @@ TEXT = {
             "name was returned for some message; at the loop of recvFiles (directory records without a data stream included) the "
             "list reported as saved has no duplicates, is exactly the set of top-level names that are new, in the order of their "
             "first effect (entries carrying their archive's path id), and every reported name exists; name, name.0 .. name.999 "
-            "all present => refusal with the state unchanged; the "
+            "all present => refusal with the state unchanged (plain names and JSON records), one gap => the gap is chosen; the "
             "chosen name is the first absent candidate. Tied to the code by regenerated constants and differential execution "
             "against the real functions in real directory trees with adversarial pre-states.",
     "note": "Partial at the flat message level only (C07_consistent_names_full stated, _partial proved); at the recvFiles level "
